@@ -1,5 +1,7 @@
 pub mod sort;
 pub mod tree;
+#[cfg(feature = "verif-hooks")]
+mod verif;
 pub mod list;
 mod entity;
 mod node;
